@@ -12,7 +12,7 @@ LEVEL = 'exploration'
 LEVEL_TEXT = ('seeded exploration of payload sequences (bytes/bytearray/str, length 0..4 capacities, all byte values) over 1-3 '
               'NO-FORMAT objects x record lengths x output-chunk schedules; byte-exact decode vs model')
 LEVEL_NOTE = 'trusted: sim/rp66.py; the model is the literal payload list of the scenario; sampling only'
-TIERS = {'quick': {'cases': 2000, 'wall': 40}, 'thorough': {'cases': 400000, 'wall': 780}}
+TIERS = {'quick': {'cases': 4000, 'wall': 40}, 'thorough': {'cases': 400000, 'wall': 780}}
 RULE = ('case = seeded payload sequence interleaved over NO-FORMAT objects, written at a small record length with a seeded '
         'output chunk; non-trivial = some payload larger than one segment capacity and >= 2 flushes; distinct = case digest')
 
